@@ -113,6 +113,11 @@ def near_misses() -> list[tuple[str, tuple, tuple]]:
         cases.append(("load_payload_module", (k, 0, ET.request), ("UnknownAPIKey",)))
         cases.append(("load_request_schema", (k, 0), ("UnknownAPIKey",)))
         cases.append(("load_response_schema", (k, 0), ("UnknownAPIKey",)))
+    # keys that merely LOOK like valid keys: digit strings of valid keys, fractional floats next to valid keys
+    for k in (["3", " 3", "12\n", "\u0663", "0", "87", "1_2", "0x3", "+3"] + [3.5, -0.5, 0.999, 87.5]):
+        cases.append(("load_payload_module", (k, 0, ET.request), ("UnknownAPIKey",)))
+        cases.append(("load_request_schema", (k, 0), ("UnknownAPIKey",)))
+        cases.append(("load_response_schema", (k, 0), ("UnknownAPIKey",)))
     for wrong in ("Metadata", "metadata ", "METADATA", "", "kio.schema.metadata", "metadata.v1", "index", "errors", "types"):
         cases.append(("load_entity_module", (wrong, 0, ET.request), ("UnknownEntity",)))
         cases.append(("load_entity_schema", (wrong, 0, ET.request), ("UnknownEntity",)))
@@ -168,15 +173,16 @@ def run(ctx: Ctx) -> Report:
     names = sorted(pins()["apis"])
     valid_keys = set(api_key_map)
     ints = st.one_of(st.integers(), st.integers(-5, 120), st.sampled_from([2**15, -(2**15) - 1, 2**31, 2**63, 10**30]))
+    digit_text = st.integers(-3, 120).map(str)
     name_st = st.one_of(st.text(max_size=12), st.sampled_from(names), st.sampled_from(names).map(lambda s: s + "_"), st.integers(-3, 90))
     ver_st = st.one_of(ints, st.text(max_size=3))
     et_st = st.sampled_from(list(ET))
     arb = st.one_of(
         st.tuples(st.just("load_entity_module"), st.tuples(name_st, ver_st, et_st)),
         st.tuples(st.just("load_entity_schema"), st.tuples(name_st, ver_st, et_st)),
-        st.tuples(st.just("load_payload_module"), st.tuples(st.one_of(ints, st.text(max_size=4)), ver_st, et_st)),
-        st.tuples(st.just("load_request_schema"), st.tuples(st.one_of(ints, st.text(max_size=4)), ver_st)),
-        st.tuples(st.just("load_response_schema"), st.tuples(st.one_of(ints, st.text(max_size=4)), ver_st)),
+        st.tuples(st.just("load_payload_module"), st.tuples(st.one_of(ints, st.text(max_size=4), digit_text), ver_st, et_st)),
+        st.tuples(st.just("load_request_schema"), st.tuples(st.one_of(ints, st.text(max_size=4), digit_text), ver_st)),
+        st.tuples(st.just("load_response_schema"), st.tuples(st.one_of(ints, st.text(max_size=4), digit_text), ver_st)),
     )
     stats = {"arbitrary_valid": 0, "arbitrary_invalid": 0}
 
